@@ -10,6 +10,7 @@ package main
 import (
 	"fmt"
 	"math"
+	"os"
 	"strings"
 
 	"github.com/pentops/j5/internal/verifh/vh"
@@ -486,9 +487,6 @@ func (g *fgen) fill(m protoreflect.Message, depth int) {
 					continue
 				}
 				if fd.MapValue().Kind() == protoreflect.MessageKind {
-					if g.clean {
-						continue
-					}
 					g.feat["opt.map-of-message"] = true
 					vm := mp.NewValue()
 					g.fill(vm.Message(), depth+2)
@@ -593,6 +591,9 @@ func (g *fgen) setExt(opts proto.Message, xt protoreflect.ExtensionType) {
 
 func (g *fgen) imports(fd protoreflect.FileDescriptor) {
 	p := fd.Path()
+	if p == g.fdp.GetName() {
+		return
+	}
 	for _, d := range g.fdp.Dependency {
 		if d == p {
 			return
@@ -673,6 +674,59 @@ func genFdpOp(h *vh.H) string {
 			g.fdp.Dependency = append(g.fdp.Dependency, e.file)
 		}
 	}
+	// further files of the op: types of the same (or another) package reached through a direct import,
+	// an `import public` of the file itself, or the public import of an intermediate file
+	var extraFiles []*descriptorpb.FileDescriptorProto
+	if h.Chance(1, 4) {
+		dpkg := g.pkg
+		if h.Chance(1, 3) {
+			dpkg = vh.Pick(h, []string{"dep.v1", "x.dep.v1", "gen.dep"})
+		}
+		depPath := strings.ReplaceAll(dpkg, ".", "/") + "/dep.proto"
+		dep := &descriptorpb.FileDescriptorProto{
+			Name: proto.String(depPath), Package: proto.String(dpkg), Syntax: proto.String("proto3"),
+			MessageType: []*descriptorpb.DescriptorProto{
+				{Name: proto.String("DepA"), Field: []*descriptorpb.FieldDescriptorProto{{Name: proto.String("id"), Number: proto.Int32(1), Label: descriptorpb.FieldDescriptorProto_LABEL_OPTIONAL.Enum(), Type: descriptorpb.FieldDescriptorProto_TYPE_STRING.Enum(), JsonName: proto.String("id")}},
+					NestedType: []*descriptorpb.DescriptorProto{{Name: proto.String("DepInner")}}},
+				{Name: proto.String("DepB")},
+			},
+			EnumType: []*descriptorpb.EnumDescriptorProto{{Name: proto.String("DepKind"), Value: []*descriptorpb.EnumValueDescriptorProto{{Name: proto.String("DEP_KIND_UNSPECIFIED"), Number: proto.Int32(0)}, {Name: proto.String("DEP_KIND_X"), Number: proto.Int32(1)}}}},
+		}
+		if !g.clean && h.Chance(1, 2) {
+			// a declaration of the other file named like something this file may nest: shadowing across files
+			n := g.pick(typeNamePool)
+			dep.MessageType = append(dep.MessageType, &descriptorpb.DescriptorProto{Name: proto.String(n)})
+			g.ext = append(g.ext, "."+dpkg+"."+n)
+			if dpkg == g.pkg {
+				g.top[n] = true
+			}
+		}
+		g.ext = append(g.ext, "."+dpkg+".DepA", "."+dpkg+".DepA.DepInner", "."+dpkg+".DepB", "."+dpkg+".DepKind#enum")
+		for _, n := range []string{"DepA", "DepB", "DepKind"} {
+			g.top[n] = true
+		}
+		extraFiles = append(extraFiles, dep)
+		switch h.Rng.IntN(3) {
+		case 0:
+			g.fdp.Dependency = append(g.fdp.Dependency, depPath)
+			g.feat["second-file"] = true
+		case 1:
+			g.fdp.Dependency = append(g.fdp.Dependency, depPath)
+			g.fdp.PublicDependency = append(g.fdp.PublicDependency, int32(len(g.fdp.Dependency)-1))
+			g.feat["import-public"] = true
+		default:
+			pubPath := strings.ReplaceAll(dpkg, ".", "/") + "/pub.proto"
+			extraFiles = append(extraFiles, &descriptorpb.FileDescriptorProto{
+				Name: proto.String(pubPath), Package: proto.String(dpkg), Syntax: proto.String("proto3"),
+				Dependency: []string{depPath}, PublicDependency: []int32{0},
+			})
+			g.fdp.Dependency = append(g.fdp.Dependency, pubPath)
+			g.feat["import-public-transitive"] = true
+		}
+		if dpkg == g.pkg {
+			g.feat["second-file-same-package"] = true
+		}
+	}
 	nm := 1 + h.Rng.IntN(4)
 	for i := 0; i < nm; i++ {
 		g.addMsg(nil, 0)
@@ -720,10 +774,32 @@ func genFdpOp(h *vh.H) string {
 			g.feat["service"] = true
 		}
 	}
+	// file-local extensions: a scalar one, and one whose message holds a map with message values
+	var localExts []protoreflect.ExtensionType
+	if h.Chance(1, 6) {
+		localExts = g.addLocalExtensions(extraFiles)
+	}
 	// options on messages, fields, oneofs, enums, values
 	for _, m := range g.msgs {
+		if len(localExts) > 0 && h.Chance(1, 2) {
+			if m.dp.Options == nil {
+				m.dp.Options = &descriptorpb.MessageOptions{}
+			}
+			for _, xt := range localExts {
+				if xt.TypeDescriptor().ContainingMessage().FullName() == "google.protobuf.MessageOptions" && h.Chance(2, 3) {
+					g.setExt(m.dp.Options, xt)
+					g.feat["opt.local-extension"] = true
+				}
+			}
+		}
+	}
+	for _, m := range g.msgs {
 		if o := g.maybeOptions(func() proto.Message { return &descriptorpb.MessageOptions{} }, 5); o != nil {
-			m.dp.Options = o.(*descriptorpb.MessageOptions)
+			if m.dp.Options != nil {
+				proto.Merge(m.dp.Options, o)
+			} else {
+				m.dp.Options = o.(*descriptorpb.MessageOptions)
+			}
 		}
 		for _, f := range m.dp.Field {
 			if o := g.maybeOptions(func() proto.Message { return &descriptorpb.FieldOptions{} }, 5); o != nil {
@@ -785,7 +861,8 @@ func genFdpOp(h *vh.H) string {
 				fo.GoPackage = proto.String("github.com/x/y/gen_pb")
 			}
 		case 6:
-			fo.OptimizeFor = vh.Pick(h, []*descriptorpb.FileOptions_OptimizeMode{descriptorpb.FileOptions_SPEED.Enum(), descriptorpb.FileOptions_LITE_RUNTIME.Enum()})
+			// (not LITE_RUNTIME: such a file may not declare extensions of descriptor.proto messages)
+			fo.OptimizeFor = vh.Pick(h, []*descriptorpb.FileOptions_OptimizeMode{descriptorpb.FileOptions_SPEED.Enum(), descriptorpb.FileOptions_CODE_SIZE.Enum()})
 			fo.CcEnableArenas = proto.Bool(false)
 			fo.JavaPackage = proto.String(g.randString())
 			g.feat["file-option-enum"] = true
@@ -801,7 +878,77 @@ func genFdpOp(h *vh.H) string {
 		h.Count("gen.fdp." + k)
 	}
 	h.Count(fmt.Sprintf("gen.fdp.srcmode-%d", g.srcMode))
-	return "fdp " + vh.Hex(b)
+	op := "fdp"
+	for _, x := range extraFiles {
+		xb, err := proto.MarshalOptions{Deterministic: true}.Marshal(x)
+		if err != nil {
+			return ""
+		}
+		op += " " + vh.Hex(xb)
+	}
+	return op + " " + vh.Hex(b)
+}
+
+// addLocalExtensions declares `LocalOpt` (a message with a scalar, a map of scalars and a map with
+// message values) and extensions of MessageOptions using it in the file under construction, and returns
+// extension types (dynamic, from a throw-away build of the file so far) to set option values with.
+func (g *fgen) addLocalExtensions(extraFiles []*descriptorpb.FileDescriptorProto) []protoreflect.ExtensionType {
+	if g.top["LocalOpt"] {
+		return nil
+	}
+	g.top["LocalOpt"] = true
+	str := descriptorpb.FieldDescriptorProto_TYPE_STRING.Enum()
+	opt := descriptorpb.FieldDescriptorProto_LABEL_OPTIONAL.Enum()
+	rep := descriptorpb.FieldDescriptorProto_LABEL_REPEATED.Enum()
+	msgT := descriptorpb.FieldDescriptorProto_TYPE_MESSAGE.Enum()
+	entry := func(name string, val *descriptorpb.FieldDescriptorProto) *descriptorpb.DescriptorProto {
+		val.Name, val.Number, val.Label, val.JsonName = proto.String("value"), proto.Int32(2), opt, proto.String("value")
+		return &descriptorpb.DescriptorProto{Name: proto.String(name), Options: &descriptorpb.MessageOptions{MapEntry: proto.Bool(true)},
+			Field: []*descriptorpb.FieldDescriptorProto{{Name: proto.String("key"), Number: proto.Int32(1), Label: opt, Type: str, JsonName: proto.String("key")}, val}}
+	}
+	full := "." + g.pkg + ".LocalOpt"
+	local := &descriptorpb.DescriptorProto{Name: proto.String("LocalOpt"),
+		Field: []*descriptorpb.FieldDescriptorProto{
+			{Name: proto.String("note"), Number: proto.Int32(1), Label: opt, Type: str, JsonName: proto.String("note")},
+			{Name: proto.String("tags"), Number: proto.Int32(2), Label: rep, Type: msgT, TypeName: proto.String(full + ".TagsEntry"), JsonName: proto.String("tags")},
+			{Name: proto.String("by_key"), Number: proto.Int32(3), Label: rep, Type: msgT, TypeName: proto.String(full + ".ByKeyEntry"), JsonName: proto.String("byKey")},
+			{Name: proto.String("count"), Number: proto.Int32(4), Label: opt, Type: descriptorpb.FieldDescriptorProto_TYPE_SINT64.Enum(), JsonName: proto.String("count")},
+		},
+		NestedType: []*descriptorpb.DescriptorProto{
+			{Name: proto.String("Inner"), Field: []*descriptorpb.FieldDescriptorProto{
+				{Name: proto.String("x"), Number: proto.Int32(1), Label: opt, Type: descriptorpb.FieldDescriptorProto_TYPE_INT32.Enum(), JsonName: proto.String("x")},
+				{Name: proto.String("y"), Number: proto.Int32(2), Label: opt, Type: str, JsonName: proto.String("y")}}},
+			entry("TagsEntry", &descriptorpb.FieldDescriptorProto{Type: str}),
+			entry("ByKeyEntry", &descriptorpb.FieldDescriptorProto{Type: msgT, TypeName: proto.String(full + ".Inner")}),
+		}}
+	g.fdp.MessageType = append(g.fdp.MessageType, local)
+	g.fdp.Extension = append(g.fdp.Extension,
+		&descriptorpb.FieldDescriptorProto{Name: proto.String("local_opt"), Number: proto.Int32(50001), Label: opt, Type: msgT, TypeName: proto.String(full), Extendee: proto.String(".google.protobuf.MessageOptions")},
+		&descriptorpb.FieldDescriptorProto{Name: proto.String("local_num"), Number: proto.Int32(50002), Label: opt, Type: descriptorpb.FieldDescriptorProto_TYPE_INT64.Enum(), Extendee: proto.String(".google.protobuf.MessageOptions")},
+		&descriptorpb.FieldDescriptorProto{Name: proto.String("local_tags"), Number: proto.Int32(50003), Label: rep, Type: str, Extendee: proto.String(".google.protobuf.MessageOptions")},
+	)
+	g.imports(descriptorpb.File_google_protobuf_descriptor_proto)
+	g.feat["local-extension-decl"] = true
+	// a throw-away build to obtain extension types
+	reg := &protoregistry.Files{}
+	for _, x := range extraFiles {
+		fd, err := protodesc.NewFile(x, fallbackResolver{reg})
+		if err != nil || reg.RegisterFile(fd) != nil {
+			return nil
+		}
+	}
+	tmp, err := protodesc.NewFile(proto.Clone(g.fdp).(*descriptorpb.FileDescriptorProto), fallbackResolver{reg})
+	if err != nil {
+		if os.Getenv("PRINT_DEBUG") != "" {
+			fmt.Fprintln(os.Stderr, "local extensions: throw-away build failed:", err)
+		}
+		return nil
+	}
+	var out []protoreflect.ExtensionType
+	for i := 0; i < tmp.Extensions().Len(); i++ {
+		out = append(out, dynamicpb.NewExtensionType(tmp.Extensions().Get(i)))
+	}
+	return out
 }
 
 // sourceInfo lays the declarations out on "lines" (a permutation of declaration order at each
@@ -866,7 +1013,9 @@ func (g *fgen) sourceInfo() {
 			i := i
 			items = append(items, func() { emitEnum(dp.EnumType[i], append(append([]int32{}, path...), 4, int32(i))) })
 		}
-		if g.h.Chance(1, 2) {
+		// (the message behind the file-local option keeps its declaration order: a parser numbers
+		// fields in source order, and the order of the fields of an option value follows the numbering)
+		if dp.GetName() != "LocalOpt" && dp.GetName() != "Inner" && g.h.Chance(1, 2) {
 			g.h.Rng.Shuffle(len(items), func(a, b int) { items[a], items[b] = items[b], items[a] })
 		}
 		for _, it := range items {
